@@ -1059,6 +1059,37 @@ def syn_apply_moves(S):
         S.moved.append((key, r2))
 
 
+def _guards_to_ifelse(block):
+    """`{ ..; if c { ..; return A; } rest.. }` reads the same as `{ ..; if c { ..; A } else { rest.. } }` when the
+    guard is a statement of the function's outermost block: rewritten in place (innermost guard first) so that a
+    helper written with guard clauses has no `return` left and can be substituted as an expression."""
+    if not isinstance(block, dict) or block.get("e") != "block":
+        return
+    stmts = block.get("stmts") or []
+    # trailing `return X;` of the outermost block is its value
+    if stmts and stmts[-1].get("s") == "expr" and (stmts[-1].get("e") or {}).get("e") == "return":
+        ret = stmts[-1]["e"]
+        if ret.get("a") is not None:
+            stmts[-1] = {"s": "expr", "line": stmts[-1].get("line", 0), "semi": False, "e": ret["a"]}
+        else:
+            stmts.pop()
+    i = len(stmts) - 1
+    while i >= 0:
+        st = stmts[i]
+        e = st.get("e") if st.get("s") == "expr" else None
+        if e and e.get("e") == "if" and e.get("else") is None and (e.get("then") or {}).get("e") == "block":
+            tst = e["then"].get("stmts") or []
+            last = tst[-1] if tst else None
+            if last is not None and last.get("s") == "expr" and (last.get("e") or {}).get("e") == "return" and not any(n.get("e") == "return" for x in tst[:-1] for n in walk_expr(x)):
+                val = last["e"].get("a")
+                then_stmts = tst[:-1] + ([{"s": "expr", "line": last.get("line", 0), "semi": False, "e": val}] if val is not None else [])
+                rest = stmts[i + 1:]
+                new_if = {"e": "if", "line": e.get("line", 0), "cond": e["cond"], "then": {"e": "block", "line": e["then"].get("line", 0), "end": e["then"].get("end", 0), "stmts": then_stmts}, "else": {"e": "block", "line": e.get("line", 0), "end": e.get("line", 0), "stmts": rest}}
+                del stmts[i:]
+                stmts.append({"s": "expr", "line": st.get("line", 0), "semi": False, "e": new_if})
+        i -= 1
+
+
 def syn_inline_new_helpers(S):
     """The syntax-level twin of inline_new_helpers: a method/function that is not on the reference
     tree (pinned_fns.json, key syn_fns) and is called as `self.h(..)` / `h(..)` from the same impl or
@@ -1086,6 +1117,8 @@ def syn_inline_new_helpers(S):
             for impl, fns in groups.items():
                 new = [it for it in fns if "%s|%s|%s" % (rel, impl, it["name"]) not in pinned and it.get("body")]
                 for h in new:
+                    if any(n.get("e") == "return" for n in walk_expr(h["body"])):
+                        _guards_to_ifelse(h["body"])
                     body_nodes = list(walk_expr(h["body"]))
                     if any(n.get("e") in ("return", "try") for n in body_nodes):
                         continue
